@@ -304,6 +304,29 @@ func inside(x, y gen.C06Site) bool {
 	return false
 }
 
+// overlap: the subtrees the two sites contribute have a node in common.
+func overlap(x, y gen.C06Site) bool {
+	if inside(x, y) || inside(y, x) {
+		return true
+	}
+	if x.Module != y.Module || len(x.Path) != len(y.Path) {
+		return false
+	}
+	for i := range x.Path {
+		if x.Path[i] != y.Path[i] {
+			return false
+		}
+	}
+	for _, a := range x.Names {
+		for _, b := range y.Names {
+			if a == b {
+				return true
+			}
+		}
+	}
+	return false
+}
+
 func checkBinding(k know, ix astIndex, f findings) {
 	for _, u := range k.Uses {
 		n := ix.uses[u.Loc]
@@ -513,7 +536,7 @@ func checkDirect(k know, ms *yang.Modules, ix astIndex, f findings) {
 		after := siteDumps(ms, k.Sites)
 		gAfter := groupingDumps(ix)
 		for i, s := range k.Sites {
-			if i == idx[0] || inside(s, victim) || inside(victim, s) {
+			if i == idx[0] || overlap(s, victim) {
 				continue
 			}
 			if d := firstDiff(after[i], before[i]); d != "" {
